@@ -1049,9 +1049,20 @@ type responseWriter struct {
 	// trailers before writing the first bytes of data (like Connect
 	// and REST unary).
 	buf *bytes.Buffer
+	// receives header changes made by the handler after endWritten
+	discardedHeader http.Header
 }
 
 func (w *responseWriter) Header() http.Header {
+	if w.endWritten {
+		// The end of the RPC has already been sent to the client. Whatever the
+		// handler still changes must not reach the client, e.g. as HTTP trailers
+		// that would contradict the status that was already reported.
+		if w.discardedHeader == nil {
+			w.discardedHeader = make(http.Header)
+		}
+		return w.discardedHeader
+	}
 	return w.delegate.Header()
 }
 
